@@ -143,7 +143,7 @@ func mutateLine(r *Rng, line string) string {
 // optionBurst lines never change the position.
 var optionBurst = []string{
 	"setoption name Use_Hash value false", "setoption name Use_Hash value true", "setoption name Hash value 1", "setoption name Hash value 3",
-	"setoption name Clear Hash", "setoption name Print Config", "setoption name Ponder value false", "setoption name Use_QSHash value false", "setoption name Use_QSHash value true",
+	"setoption name Clear Hash", "setoption name Print Config", "setoption name Ponder value false", "setoption name Use_QHash value false", "setoption name Use_QHash value true",
 	"setoption name Eval_Lazy value true", "setoption name Eval_Lazy value false",
 }
 
@@ -287,6 +287,20 @@ func c16uci(c *Ctx) {
 			f := strings.Fields(line)
 			if len(f) > 0 && (f[0] == "go" || f[0] == "perft") {
 				time.Sleep(time.Duration(r.Intn(3000)) * time.Microsecond)
+				if r.Chance(0.3) {
+					// option commands arriving while whatever the line started is still running
+					nb := 1 + r.Intn(3)
+					var burst []string
+					for j := 0; j < nb; j++ {
+						burst = append(burst, optionBurst[r.Intn(len(optionBurst))])
+					}
+					for _, bl := range burst {
+						u.send(bl)
+					}
+					rep.Inc("uci_options_during_search")
+					desc = fmt.Sprintf("%s (followed while running by %q)", desc, burst)
+					time.Sleep(time.Duration(r.Intn(3000)) * time.Microsecond)
+				}
 				if r.Chance(0.3) && unansweredIsready < 3 {
 					// isready has to be answered while whatever the line started is still running
 					rep.Inc("uci_isready_before_stop")
